@@ -12,6 +12,7 @@
    position 0 and readable, each call within a generous wall-clock cap.
 """
 import io
+import struct
 import os
 import time
 
@@ -30,7 +31,17 @@ def rp66_files(rng, n):
         seq = rng.choice([1, 9, 10, 100, 1010, 9999])
         ident = rng.choice([b'', b'Default Storage Set', b'CUSTOMER #1 (test) ~'])
         sul = GD.render_sul(seq, vm, ident, rng.choice(['zero', 'blank']))
-        out.append(('RP66V1', GD.render(recs, lay, sul=sul).data, dict(fmt='RP66V1', vm=vm, seq=seq)))
+        data = GD.render(recs, lay, sul=sul).data
+        wrap = rng.choice(['none', 'none', 'le', 'be'])
+        if wrap == 'none':
+            out.append(('RP66V1', data, dict(fmt='RP66V1', vm=vm, seq=seq)))
+        else:
+            # the same storage unit on a TIF-marked tape image: a marker before the label (next = 12 + 80) and before the rest
+            fmt_ = '<3L' if wrap == 'le' else '>3L'
+            body = data[80:]
+            img = struct.pack(fmt_, 0, 0, 92) + data[:80] + struct.pack(fmt_, 0, 0, 92 + 12 + len(body)) + body
+            img += struct.pack(fmt_, 1, 92, len(img) + 12) + struct.pack(fmt_, 1, len(img), len(img) + 24)
+            out.append(('RP66V1t' if wrap == 'le' else 'RP66V1tr', img, dict(fmt='RP66V1', vm=vm, seq=seq, tif=wrap)))
     return out
 
 
